@@ -62,10 +62,22 @@ struct Graph {
     /// a conflicting cached alias for node 1 (zone data must win)
     conflicting_cache: bool,
     chase_in_reply: bool,
+    /// links held by a zone (local or upstream) are wildcard records matched
+    /// two labels down: node i is `c<i>.deep.w<i>.<dom>.` and its alias is
+    /// the record `*.w<i>.<dom>. CNAME ...`
+    wild: bool,
 }
 
 fn node_name(g: &Graph, i: usize) -> DomainName {
-    dn(&format!("c{}.{}", i, src_dom(g.srcs[i])))
+    if g.wild && g.srcs[i] != Src::Cache && g.next[i].is_some() {
+        dn(&format!("c{}.deep.w{}.{}", i, i, src_dom(g.srcs[i])))
+    } else {
+        dn(&format!("c{}.{}", i, src_dom(g.srcs[i])))
+    }
+}
+
+fn wild_parent(g: &Graph, i: usize) -> DomainName {
+    dn(&format!("w{}.{}", i, src_dom(g.srcs[i])))
 }
 
 fn final_data(qtype: RecordType, i: usize) -> RecordTypeWithData {
@@ -137,9 +149,25 @@ fn build_world(g: &Graph, qtype: RecordType) -> World {
         }
     };
     let n = g.srcs.len();
+    let mut wild_truth: Vec<(DomainName, RecordTypeWithData)> = Vec::new();
     for i in 0..n {
         let name = node_name(g, i);
         match g.next[i] {
+            Some(j) if g.wild && g.srcs[i] != Src::Cache => {
+                let target = node_name(g, j);
+                let parent = wild_parent(g, i);
+                wild_truth.push((name.clone(), cname(&target)));
+                match g.srcs[i] {
+                    Src::Auth => auth.insert_wildcard(&parent, cname(&target), 300),
+                    Src::NonAuth => nonauth.insert_wildcard(&parent, cname(&target), 300),
+                    _ => upzone.recs.push(FlatRec {
+                        owner: parent,
+                        wildcard: true,
+                        data: cname(&target),
+                        ttl: 300,
+                    }),
+                }
+            }
             Some(j) => {
                 let target = node_name(g, j);
                 put(g.srcs[i], &name, cname(&target), &mut upzone, &mut auth, &mut nonauth, &mut seed);
@@ -167,6 +195,7 @@ fn build_world(g: &Graph, qtype: RecordType) -> World {
         seed.push(rr(&node_name(g, 1), cname(&dn("elsewhere.k.")), 300));
         seed.push(rr(&dn("elsewhere.k."), final_data(qtype, 4000), 300));
     }
+    truth.extend(wild_truth);
     let up_idx = u.zones.len();
     u.zones.push(upzone);
     u.serving.entry(IpAddr::V4(up_addr)).or_default().push(up_idx);
@@ -216,6 +245,7 @@ fn graph_json(g: &Graph, qtype: QueryType, mode: ModeK) -> Value {
         "fin": format!("{:?}", g.fin),
         "conflicting_cache": g.conflicting_cache,
         "chase_in_reply": g.chase_in_reply,
+        "wild": g.wild,
         "qtype": u16::from(qtype),
         "mode": format!("{mode:?}"),
     })
@@ -254,6 +284,7 @@ fn graph_from_json(v: &Value) -> Option<(Graph, QueryType, ModeK)> {
             fin,
             conflicting_cache: v["conflicting_cache"].as_bool().unwrap_or(false),
             chase_in_reply: v["chase_in_reply"].as_bool().unwrap_or(false),
+            wild: v["wild"].as_bool().unwrap_or(false),
         },
         QueryType::from(v["qtype"].as_u64()? as u16),
         mode,
@@ -490,7 +521,11 @@ fn graphs_for_item(tier: Tier, item: usize) -> Vec<Graph> {
                     if chase && !srcs.iter().any(|s| *s == Src::Up) {
                         continue;
                     }
-                    out.push(Graph { srcs: srcs.clone(), next: next.clone(), fin, conflicting_cache: false, chase_in_reply: chase });
+                    out.push(Graph { srcs: srcs.clone(), next: next.clone(), fin, conflicting_cache: false, chase_in_reply: chase, wild: false });
+                    // the same chain with its zone-held links written as deep-matching wildcards
+                    if l >= 1 && l <= 4 && srcs[..l].iter().any(|s| *s != Src::Cache) {
+                        out.push(Graph { srcs: srcs.clone(), next: next.clone(), fin, conflicting_cache: false, chase_in_reply: chase, wild: true });
+                    }
                 }
             }
         }
@@ -506,7 +541,7 @@ fn graphs_for_item(tier: Tier, item: usize) -> Vec<Graph> {
                     for s2 in SRCS {
                         let srcs: Vec<Src> = (0..nodes).map(|i| if i < nodes / 2 { s1 } else { s2 }).collect();
                         for chase in [false, true] {
-                            out.push(Graph { srcs: srcs.clone(), next: next.clone(), fin: Final::HasType, conflicting_cache: false, chase_in_reply: chase });
+                            out.push(Graph { srcs: srcs.clone(), next: next.clone(), fin: Final::HasType, conflicting_cache: false, chase_in_reply: chase, wild: false });
                         }
                     }
                 }
@@ -533,7 +568,7 @@ fn graphs_for_item(tier: Tier, item: usize) -> Vec<Graph> {
                         c /= 4;
                     }
                     for chase in [false, true] {
-                        out.push(Graph { srcs: srcs.clone(), next: next.clone(), fin: Final::HasType, conflicting_cache: false, chase_in_reply: chase });
+                        out.push(Graph { srcs: srcs.clone(), next: next.clone(), fin: Final::HasType, conflicting_cache: false, chase_in_reply: chase, wild: false });
                     }
                 }
             }
@@ -549,6 +584,7 @@ fn graphs_for_item(tier: Tier, item: usize) -> Vec<Graph> {
                             fin: Final::HasType,
                             conflicting_cache: true,
                             chase_in_reply: false,
+                            wild: false,
                         });
                     }
                 }
